@@ -220,12 +220,8 @@ def _check_own(ctx):
         ctx.check(bool(o) and all(is_call_to(prog, dele, x, lookup) and x.proj[-1:] == ("f:0",) for x in o), "delete-links", "frees-found-key",
                   "the key record freed by delete is not the found one (%s)" % o, where=where(dele, b))
     # head arm / inner arm split on previous.is_zero()
-    def prev_pred(o):
-        if o.kind != "call" or not (o.data.get("callee") or "").endswith("::is_zero"):
-            return False
-        a = origins(prog, dele, o.data["args"][0], at=o.block)
-        return bool(a) and all(is_call_to(prog, dele, x, lookup) and x.proj[-1:] == ("f:1",) for x in a)
-    ps = find_bool_split(prog, dele, prev_pred)
+    from .util import zero_splits
+    ps = zero_splits(prog, dele, lambda a: all(is_call_to(prog, dele, x, lookup) and x.proj[-1:] == ("f:1",) for x in a))
     if ctx.check(len(ps) == 1, "delete-links", "head-or-inner-split", "cannot find the `previous.is_zero()` split in delete", where=where(dele)):
         head_e, inner_e = ps[0]["true"], ps[0]["false"]
         r_head, r_inner = region_dominated(dele, head_e), region_dominated(dele, inner_e)
@@ -308,7 +304,7 @@ def _after_unlink(fn, b, head_sites, inner_sites, split_block):
     if not fn.dominates(split_block, b):
         return False
     avoid = set(head_sites) | set(inner_sites)
-    return b not in fn.reachable(fn.normal_succs(split_block), avoid)
+    return b not in fn.reachable_ok(fn.normal_succs(split_block), avoid)
 
 
 def check(ctx):
